@@ -131,13 +131,14 @@ func normalize(repo, arch string) (*normResult, error) {
 }
 
 type inliner struct {
-	pkg    *packages.Package
-	serial *int
-	counts map[string]int
-	res    *normResult
-	cands  map[*types.Func]*ast.FuncDecl
-	dirty  map[*ast.File]bool
-	remain map[*types.Func]int // references that were not inlined
+	pkg       *packages.Package
+	serial    *int
+	counts    map[string]int
+	res       *normResult
+	cands     map[*types.Func]*ast.FuncDecl
+	dirty     map[*ast.File]bool
+	remain    map[*types.Func]int // references that were not inlined
+	inClosure bool
 }
 
 func (in *inliner) note(format string, a ...any) {
@@ -377,20 +378,34 @@ func (in *inliner) inlinable(fd *ast.FuncDecl, fn *types.Func) string {
 func (in *inliner) block(file *ast.File, encl *ast.FuncDecl, n ast.Node) bool {
 	changed := false
 	var lists []*[]ast.Stmt
-	ast.Inspect(n, func(x ast.Node) bool {
-		switch s := x.(type) {
-		case *ast.BlockStmt:
-			lists = append(lists, &s.List)
-		case *ast.CaseClause:
-			lists = append(lists, &s.Body)
-		case *ast.CommClause:
-			lists = append(lists, &s.Body)
-		case *ast.FuncLit:
-			return false // returns inside closures belong to the closure
-		}
-		return true
-	})
+	inLit := map[*[]ast.Stmt]bool{}
+	var collect func(n ast.Node, lit bool)
+	collect = func(n ast.Node, lit bool) {
+		ast.Inspect(n, func(x ast.Node) bool {
+			switch s := x.(type) {
+			case *ast.BlockStmt:
+				lists = append(lists, &s.List)
+				inLit[&s.List] = lit
+			case *ast.CaseClause:
+				lists = append(lists, &s.Body)
+				inLit[&s.Body] = lit
+			case *ast.CommClause:
+				lists = append(lists, &s.Body)
+				inLit[&s.Body] = lit
+			case *ast.FuncLit:
+				// statements of a closure: calls are inlined there too, except `return h(…)`
+				// (the return belongs to the closure, whose signature is not the enclosing function's)
+				if !lit {
+					collect(s.Body, true)
+					return false
+				}
+			}
+			return true
+		})
+	}
+	collect(n, false)
 	for _, lp := range lists {
+		in.inClosure = inLit[lp]
 		var out []ast.Stmt
 		for _, st := range *lp {
 			// if x := h(); cond {…}  →  { x := h(); if cond {…} }
@@ -525,7 +540,7 @@ func (in *inliner) site(file *ast.File, encl *ast.FuncDecl, st ast.Stmt) []ast.S
 			asg = s
 		}
 	case *ast.ReturnStmt:
-		if len(s.Results) == 1 {
+		if len(s.Results) == 1 && !in.inClosure {
 			call, _ = s.Results[0].(*ast.CallExpr)
 			kind = "return"
 		}
